@@ -419,9 +419,9 @@ Lemma inspect_loop_cons d raw rest i subs hyph counts :
   let line := strip raw in
   if negb (nonempty line) then inspect_loop d rest (S i) subs hyph counts
   else
-    let hyph' := if in_str ch_minus line then S hyph else hyph in
-    if startswith [ch_hash] line then inspect_loop d rest (S i) subs hyph' counts
+    if startswith [ch_hash] line then inspect_loop d rest (S i) subs hyph counts
     else
+      let hyph' := if in_str ch_minus line then S hyph else hyph in
       let n := List.length (split_line d (apply_subs subs line)) in
       let counts' := n :: counts in
       match rest with
